@@ -125,7 +125,7 @@ ANY = object()
 def run(tier, seed, rng):
     import sys
     host = sys.byteorder == 'big'
-    ng = 70 if tier == 'quick' else 500
+    ng = 70 if tier == 'quick' else 2000
     groups, meta = [], []
     for gid in range(ng):
         table = flat_table(rng)
